@@ -1,8 +1,263 @@
 import Got.Drv.Common
-/- driver for the waitclose model family (properties C16): to be written -/
+import Got.Model.WaitClose
+import Std.Data.HashSet
+/-
+drv_waitclose (monitor mode): input lines `script<TAB>observation`, answer `ok` / `reject <why>`.
+
+script       wc | <prog> / <prog> ...        one program per goroutine, calls `<at>:<op>` issued at virtual instant
+                                             max(at, return of the previous call) (ns, relative to the scenario start)
+             ops: C   W<timeout>   I   Xn (Close(nil))   Xs<d> Xe<d> Xp<d> (Close with a callback that sleeps d and
+                  then returns nil / returns an error / panics)
+observation  r<g>.<i>@<call>-<ret>=<val>    per call: instants and value (C: global | own<k> | nil ; W, I: 0|1 ; X: nil|err)
+             cb<g>@<start>-<end>            per executed callback
+             probe=ok|open  final=...  isclosed=0|1  chans=<n>
+             stress lines: `stress ...` <TAB> `k=v ...` (summary of the invariants checked by the harness)
+
+The monitor searches the executions of Got.Model.WaitClose (all interleavings of the single accesses of the goroutines
+that are runnable at the same virtual instant; time advances only when nobody is runnable = the Go runtime's faketime
+clock) for one that produces exactly the observed instants and values.
+-/
 namespace Got.Drv.WaitClose
+open Got.Model.WaitClose Got.Drv
+
+instance : Inhabited CbRes := ⟨.ok⟩
+
+inductive Op where
+  | C | W (T : Int) | I | X (cb : Option (CbRes × Nat))
+
+def parseOp (w : String) : Option Op :=
+  if w = "C" then some .C
+  else if w = "I" then some .I
+  else if w = "Xn" then some (.X none)
+  else if w.startsWith "W" then (w.drop 1).toString.toInt?.map .W
+  else if w.startsWith "Xs" then (w.drop 2).toString.toNat?.map fun d => .X (some (.ok, d))
+  else if w.startsWith "Xe" then (w.drop 2).toString.toNat?.map fun d => .X (some (.err, d))
+  else if w.startsWith "Xp" then (w.drop 2).toString.toNat?.map fun d => .X (some (.panic, d))
+  else none
+
+def parseCall (w : String) : Option (Nat × Op) :=
+  match w.splitOn ":" with
+  | [a, o] => match a.toNat?, parseOp o with
+    | some a, some o => some (a, o)
+    | _, _ => none
+  | _ => none
+
+structure Obs where
+  rets : Array (Array (Nat × Nat × String))   -- per goroutine, per call: call instant, return instant, value
+  cbs : List (Nat × Nat × Nat)                -- goroutine, start, end
+  isclosed : Option Bool
+  probeOk : Bool
+
+/-- `r<g>.<i>@<call>-<ret>=<val>` -/
+def parseRet (tok : String) : Option (Nat × Nat × Nat × Nat × String) :=
+  match ((tok.drop 1).toString).splitOn "=" with
+  | [lhs, v] =>
+    match lhs.splitOn "@" with
+    | [gi, tt] =>
+      match gi.splitOn ".", tt.splitOn "-" with
+      | [g, i], [c, r] =>
+        match g.toNat?, i.toNat?, c.toNat?, r.toNat? with
+        | some g, some i, some c, some r => some (g, i, c, r, v)
+        | _, _, _, _ => none
+      | _, _ => none
+    | _ => none
+  | _ => none
+
+def parseCb (tok : String) : Option (Nat × Nat × Nat) :=
+  match ((tok.drop 2).toString).splitOn "@" with
+  | [g, tt] =>
+    match tt.splitOn "-" with
+    | [a, b] => match g.toNat?, a.toNat?, b.toNat? with
+      | some g, some a, some b => some (g, a, b)
+      | _, _, _ => none
+    | _ => none
+  | _ => none
+
+def parseObs (n : Nat) (impl : String) : Option Obs := do
+  let mut rets : Array (Array (Nat × Nat × String)) := Array.replicate n #[]
+  let mut cbs : List (Nat × Nat × Nat) := []
+  let mut isc : Option Bool := none
+  let mut probeOk := true
+  for tok in words impl do
+    if tok.startsWith "cb" then
+      let c ← parseCb tok
+      cbs := cbs ++ [c]
+    else if tok.startsWith "r" then
+      let (g, i, c, r, v) ← parseRet tok
+      if g ≥ n then none
+      if i ≠ (rets[g]!).size then none
+      rets := rets.modify g (·.push (c, r, v))
+    else if tok = "isclosed=1" then isc := some true
+    else if tok = "isclosed=0" then isc := some false
+    else if tok.startsWith "probe=" then
+      if tok ≠ "probe=ok" then probeOk := false
+    else pure ()
+  return { rets := rets, cbs := cbs, isclosed := isc, probeOk := probeOk }
+
+structure Cfg where
+  s : St
+  idx : Array Nat          -- number of calls each goroutine has invoked
+  cbEndAt : Array Nat
+  cbRes : Array CbRes
+  ncb : Nat
+
+def chanName : Option Nat → String
+  | none => "nil"
+  | some 0 => "global"
+  | some k => s!"own{k}"
+
+def Cfg.key (c : Cfg) (n : Nat) : String :=
+  let pcs := (List.range n).map fun g => toString (repr (c.s.pc g)) ++ "#" ++ toString (c.idx[g]!)
+  s!"{c.s.now}|{c.s.state}|{chanName c.s.closeChan}|{c.s.closed.length}|{c.s.mu}|{c.s.fault}|{c.ncb}|{c.cbEndAt}|" ++ "|".intercalate pcs
+
+/-- does the event the model just produced agree with the observation? -/
+def evOk (o : Obs) (c : Cfg) : Ev → Bool
+  | .closeDo .. => true
+  | .cbStart t now => o.cbs.any fun (g, a, _) => g = t && a = now
+  | .cbEnd t _ now => o.cbs.any fun (g, _, b) => g = t && b = now
+  | .closeRet t r now =>
+    match (o.rets[t]!)[c.idx[t]! - 1]? with
+    | some (_, ret, v) => ret = now && v = (if r = some .err then "err" else "nil")
+    | none => false
+  | .cRet t ch now =>
+    match (o.rets[t]!)[c.idx[t]! - 1]? with
+    | some (_, ret, v) => ret = now && v = chanName ch
+    | none => false
+  | .wuRet t b _ _ _ now =>
+    match (o.rets[t]!)[c.idx[t]! - 1]? with
+    | some (_, ret, v) => ret = now && v = (if b then "1" else "0")
+    | none => false
+  | .iscRet t b now =>
+    match (o.rets[t]!)[c.idx[t]! - 1]? with
+    | some (_, ret, v) => ret = now && v = (if b then "1" else "0")
+    | none => false
+
+/-- apply a model action (log cleared first, so that the new events are exactly the log afterwards) -/
+def Cfg.act (o : Obs) (c : Cfg) (a : Act) : Option Cfg :=
+  let s' := step { c.s with log := [] } a
+  if s'.log.all (evOk o c) then some { c with s := s' } else none
+
+/-- successor configurations at the current instant -/
+def succs (progs : Array (Array (Nat × Op))) (o : Obs) (c : Cfg) : List Cfg :=
+  (List.range progs.size).flatMap fun g =>
+    match c.s.pc g with
+    | .idle =>
+      match (progs[g]!)[c.idx[g]!]? with
+      | some (at_, op) =>
+        if at_ ≤ c.s.now then
+          match (o.rets[g]!)[c.idx[g]!]? with
+          | some (callAt, _, _) =>
+            if callAt ≠ c.s.now then [] else
+            let c1 := { c with idx := c.idx.modify g (· + 1) }
+            match op with
+            | .C => (c1.act o (.invoke g .c)).toList
+            | .W T => (c1.act o (.invoke g (.waitUtil T))).toList
+            | .I => (c1.act o (.invoke g .isClosed)).toList
+            | .X none => (c1.act o (.invoke g (.close false))).toList
+            | .X (some (r, d)) =>
+              ({ c1 with cbRes := c1.cbRes.set! g r, cbEndAt := c1.cbEndAt.set! g d }.act o (.invoke g (.close true))).toList
+          | none => []
+        else []
+      | none => []
+    | .clCbRun => if c.cbEndAt[g]! ≤ c.s.now then (c.act o (.cbEnd g c.cbRes[g]!)).toList else []
+    | .clCbStart =>
+      -- the callback starts now and sleeps d: remember its end instant
+      ({ c with cbEndAt := c.cbEndAt.set! g (c.s.now + c.cbEndAt[g]!), ncb := c.ncb + 1 }.act o (.step g)).toList
+    | .wSel ch start T =>
+      (if chanClosed c.s ch then (c.act o (.step g)).toList else []) ++
+      (if (start : Int) + T ≤ c.s.now then (c.act o (.timeout g)).toList else [])
+    | .iLock _ | .clLock _ => if c.s.mu.isNone then (c.act o (.step g)).toList else []
+    | _ => (c.act o (.step g)).toList
+
+/-- is some goroutine runnable at this instant (regardless of the observation)? -/
+def runnable (progs : Array (Array (Nat × Op))) (c : Cfg) : Bool :=
+  (List.range progs.size).any fun g =>
+    match c.s.pc g with
+    | .idle => match (progs[g]!)[c.idx[g]!]? with
+      | some (at_, _) => at_ ≤ c.s.now
+      | none => false
+    | .clCbRun => c.cbEndAt[g]! ≤ c.s.now
+    | .wSel ch start T => chanClosed c.s ch || decide ((start : Int) + T ≤ c.s.now)
+    | .iLock _ | .clLock _ => c.s.mu.isNone
+    | _ => true
+
+/-- the next instant at which something can happen -/
+def nextInstant (progs : Array (Array (Nat × Op))) (c : Cfg) : Option Nat :=
+  let cands := (List.range progs.size).filterMap fun g =>
+    match c.s.pc g with
+    | .idle => match (progs[g]!)[c.idx[g]!]? with
+      | some (at_, _) => if at_ > c.s.now then some at_ else none
+      | none => none
+    | .clCbRun => if c.cbEndAt[g]! > c.s.now then some c.cbEndAt[g]! else none
+    | .wSel _ start T => if (start : Int) + T > c.s.now then some ((start : Int) + T).toNat else none
+    | _ => none
+  cands.foldl (fun acc x => match acc with | none => some x | some y => some (min x y)) none
+
+def finished (progs : Array (Array (Nat × Op))) (c : Cfg) : Bool :=
+  (List.range progs.size).all fun g => (c.s.pc g == .idle) && c.idx[g]! == (progs[g]!).size
+
+def finalOk (o : Obs) (c : Cfg) : Bool :=
+  c.ncb == o.cbs.length && !c.s.fault &&
+  (match o.isclosed with | some b => b == decide (c.s.state = wcClosed) | none => true)
+
+def search (progs : Array (Array (Nat × Op))) (o : Obs) :
+    Nat → Cfg → Std.HashSet String → Bool × Std.HashSet String
+  | 0, _, vis => (false, vis)
+  | fuel + 1, c, vis =>
+    let k := c.key progs.size
+    if vis.contains k then (false, vis) else
+    let vis := vis.insert k
+    if runnable progs c then
+      (succs progs o c).foldl (fun (acc : Bool × Std.HashSet String) c' =>
+        if acc.1 then acc else search progs o fuel c' acc.2) (false, vis)
+    else
+      match nextInstant progs c with
+      | some t =>
+        let s' := step c.s (.tick (t - c.s.now))
+        if s'.now = t then search progs o fuel { c with s := s' } vis
+        else (false, vis)   -- the model refuses to let time pass (cannot happen: nobody is runnable)
+      | none => (finished progs c && finalOk o c, vis)
+
+def parseProgs (s : String) : Option (Array (Array (Nat × Op))) :=
+  ((s.splitOn " / ").mapM fun p => ((words p).mapM parseCall).map List.toArray).map List.toArray
+
+def stressOk (impl : String) : Bool :=
+  let kv := (words impl).filterMap fun w => match w.splitOn "=" with
+    | [k, v] => v.toNat?.map fun v => (k, v)
+    | _ => none
+  kv.length ≥ 2 && kv.all fun (k, v) =>
+    if k = "cb" then v ≤ 1 else if k = "ops" || k = "closed" then true else v = 0
+
+def monitor (line : String) : String :=
+  match line.splitOn "\t" with
+  | [script, impl] =>
+    if script.startsWith "stress" then
+      if stressOk impl then "ok" else "reject stress run reports a violated invariant"
+    else
+    match script.splitOn " | " with
+    | ["wc", ps] =>
+      match parseProgs ps with
+      | some progs =>
+        match parseObs progs.size impl with
+        | some o =>
+          if !o.probeOk then "reject a returned channel was open after a Close return" else
+          if (List.range progs.size).any (fun g => (o.rets[g]!).size ≠ (progs[g]!).size) then
+            "reject a call did not return"
+          else
+          let n := progs.size
+          let c : Cfg := { s := init, idx := Array.replicate n 0, cbEndAt := Array.replicate n 0,
+                           cbRes := Array.replicate n .ok, ncb := 0 }
+          let (found, vis) := search progs o 100000 c {}
+          if found then "ok" else s!"reject no model execution produces this observation (explored {vis.size} states)"
+        | none => "reject unparsable observation"
+      | none => "bad-script"
+    | _ => "bad-script"
+  | [single] => if single.isEmpty then "" else "bad-line"
+  | _ => "bad-line"
+
+def stepLine (_ : Unit) (line : String) : Unit × String := ((), monitor line)
 
 def main (_args : List String) : IO Unit := do
-  IO.eprintln "drv_waitclose: not implemented"
+  lineLoop (← IO.getStdin) (← IO.getStdout) stepLine ()
 
 end Got.Drv.WaitClose
